@@ -720,6 +720,25 @@ def _check_kebab(ctx: Ctx, cfg_fields: list[str]) -> None:
                         and repo.lookup(a.comparators[0].id, parse.module, parse) is vf:
                     if (isinstance(a.ops[0], ast.In) and not truth) or (isinstance(a.ops[0], ast.NotIn) and truth):
                         ok = True
+        if not ok:
+            # collected first, reported afterwards: the key goes to a list where it is known not to be a field, and a later
+            # loop over that list prints one warning per element
+            def unknown_guard(n_) -> bool:
+                for a, truth in must_atoms(flow.control_deps(n_)):
+                    if isinstance(a, ast.Compare) and len(a.ops) == 1 and vf is not None and isinstance(a.comparators[0], ast.Name) \
+                            and repo.lookup(a.comparators[0].id, parse.module, parse) is vf:
+                        if (isinstance(a.ops[0], ast.In) and not truth) or (isinstance(a.ops[0], ast.NotIn) and truth):
+                            return True
+                return False
+
+            collectors = {c.func.value.id for n_, c in flow.all_calls() if isinstance(c.func, ast.Attribute) and c.func.attr == "append"
+                          and isinstance(c.func.value, ast.Name) and unknown_guard(n_)}
+            for h_ in flow.cfg.nodes:
+                if h_.kind == "for" and isinstance(h_.ast.iter, ast.Name) and h_.ast.iter.id in collectors and all(b is h_ for b, _l in flow.control_deps(h_)):
+                    body_ = flow.loop_body_nodes(h_)
+                    for pn in prints:
+                        if pn in body_ and all(b is h_ for b, _lab in flow.control_deps(pn)):
+                            ok = True
         ctx.ob("R-CONFIG-K7", f"{parse.qual} :: unknown keys warn", ok,
                "a key that is not a FlowmarkConfig field must produce a warning (so 'accepted without warning' == fields(FlowmarkConfig))",
                where(parse, parse.node))
